@@ -11,7 +11,7 @@ for pid in ids:
     sp = props.PROPS[pid]
     has_contracts = any(pid in c.props for c in REG.by_name.values())
     has_bounded = os.path.exists(os.path.join(ROOT, 'gvc', 'bounded', pid + '.py'))
-    if not (has_contracts or has_bounded) or sp.get('not_applicable'):
+    if not (has_contracts or has_bounded) or sp.get('not_applicable') or not sp.get('ready'):
         na.append({'property_id': pid, 'reason': sp.get('not_applicable') or 'no check built yet for this property (see DESIGN.md)'})
         continue
     checks.append({'property_id': pid,
